@@ -157,7 +157,7 @@ def rand_history(rng):
 
 
 def gen(ctx):
-    cs = table() + pv.cross_kind_cases() + pv.back_to_back_cases() + pv.raw_chunk_cases() + pv.pad_boundary_cases()
+    cs = table() + pv.cross_kind_cases() + pv.back_to_back_cases() + pv.raw_chunk_cases() + pv.pad_boundary_cases() + pv.forged_update_cases() + pv.reg_branch_cases()
     cs += storeput_cases(ctx.rng, 0) + pv.raw_chunk_storeput_cases()
     n = 300 if ctx.tier == "quick" else 8000
     cs += [rand_history(ctx.rng) for _ in range(n)]
@@ -217,7 +217,7 @@ def oracle(case, out):
         dn = pv.derived_name_of_stored(s["val"])
         if dn is not None and any(x != k for x in dn):
             v.append(("held-under-foreign-key", "store holds %s under %s" % (pv.dumps(s["val"])[:300], k)))
-    return v + pv.kind_change_violations(case, out)
+    return v + pv.kind_change_violations(case, out) + pv.rejection_violations(case, out)
 
 
 def r_rtype(h):
